@@ -286,6 +286,8 @@ class Lattice(keras.layers.Layer):
         lattice_sizes=lattice_sizes,
         monotonicities=monotonicities,
         unimodalities=unimodalities,
+        output_min=output_min,
+        output_max=output_max,
         interpolation=interpolation)
     super(Lattice, self).__init__(**kwargs)
 
@@ -861,7 +863,9 @@ class LatticeConstraints(keras.constraints.Constraint):
         monotonic_dominances=monotonic_dominances,
         range_dominances=range_dominances,
         joint_monotonicities=joint_monotonicities,
-        joint_unimodalities=joint_unimodalities)
+        joint_unimodalities=joint_unimodalities,
+        output_min=output_min,
+        output_max=output_max)
 
     self.lattice_sizes = lattice_sizes
     self.monotonicities = utils.canonicalize_monotonicities(
